@@ -10,7 +10,7 @@ CLAIMS = {
 
 
  "C02": dict(
-  text="Deductive proof that the state-update filters are exactly the predicates the delivery relies on: AllStateFilter, MBoxIDStateFilter and AnyMessageIDStateFilter are characterised exactly (true iff selected / same mailbox / some listed message in the view), MessageIDStateFilter and MessageAndMBoxIDStateFilter are sound and accept every state whose view contains the message. The clause taken from the property - a state in which the message's EXISTS is still queued must be accepted too - fails on the real code and is recorded as a known finding (wire-confirmed).",
+  text="Deductive proof that the state-update filters are exactly the predicates the delivery relies on: AllStateFilter, MBoxIDStateFilter and AnyMessageIDStateFilter are characterised exactly (true iff selected / same mailbox / some listed message in the view), MessageIDStateFilter and MessageAndMBoxIDStateFilter are sound and accept every state whose view contains the message; the removal of a moved message is addressed with the (message, source mailbox) filter, one update per message; closing the selected mailbox drops the view and every queued response. The clause taken from the property - a state in which the message's EXISTS is still queued must be accepted too - fails on the real code and is recorded as a known finding (wire-confirmed).",
   note="Assumes session confinement. Undecided: broadcast (QueueOrApplyStateUpdate), FIFO queue, quiescence, cross-goroutine timing, SQL reads of a fresh session.",
   ref="DESIGN.md §4 C02"),
  "C06": dict(
@@ -62,7 +62,7 @@ CLAIMS = {
   note="Assumes non-negative counts at the call sites (stated as preconditions). Assumes the abstract transaction model (ghost write counter, uninterpreted count/next-UID functions). Undecided: AppendRegular (check on a read-only client outside the inserting transaction), Rename, connector-side creation, all-or-nothing via wrapTx, concurrency.",
   ref="DESIGN.md §4 C17"),
  "C07": dict(
-  text="Deductive proof of the transaction wrapper every database write goes through (sqlite3 Client.wrapTx): for every operation and every failing step, a nil result means exactly one successful commit and no rollback, an error result means nothing was committed, every transaction begun is ended exactly once and at most one is begun. This is the 'before or after, never half' clause for the database part of every operation; Also proved: the three state actions that create a message row (actionCreateMessage, actionCreateRecoveredMessage, actionImportRecoveredMessage) hand the database only an id whose literal was written to the store earlier in the same call (abstract store model: a successful Set adds the id and keeps the others), so an error or crash between the two leaves at most an unreferenced file, never a listed message without bytes.",
+  text="Deductive proof of the transaction wrapper every database write goes through (sqlite3 Client.wrapTx): for every operation and every failing step, a nil result means exactly one successful commit and no rollback, an error result means nothing was committed, every transaction begun is ended exactly once and at most one is begun. This is the 'before or after, never half' clause for the database part of every operation; Also proved: the three state actions that create a message row (actionCreateMessage, actionCreateRecoveredMessage, actionImportRecoveredMessage) hand the database only an id whose literal was written to the store earlier in the same call (abstract store model: a successful Set adds the id and keeps the others), so an error or crash between the two leaves at most an unreferenced file, never a listed message without bytes; getLiteral, when it has to download a literal again, puts into the cache exactly the slice it returns (at most one store write).",
   note="Assumes the database/sql model in contracts/deps/sql.spec (BeginTx/Commit/Rollback counters; SQLite makes a commit atomic and durable), op does not commit/roll back itself, the recover()/re-panic path is not modelled. The store model is assumed (membership only, no bytes). NOT decided (no contract within reach): process death at arbitrary points, WAL recovery, the connector-driven creation path (parallel store writes in closures), deletion order, clean-up of left-overs on restart, message bytes on disk.",
   ref="DESIGN.md §4 C07"),
  "C14": dict(
@@ -70,7 +70,7 @@ CLAIMS = {
   note="strings.EqualFold/ToLower/HasPrefix are uninterpreted functions (foldEq, lower, hasPrefix); stateDBWrite is trusted to start exactly one transaction; closure bodies passed to stateDBWrite are outside these guard contracts (nocallbacks), callee preconditions after the guard are not checked in the guard-only contracts. NOT decided: the hierarchy/subscription reference model over command sequences, LIST/LSUB pattern matching (regular-expression translation in match.go: regexp is outside the verifier), \\Noselect, connector-driven mailbox updates.",
   ref="DESIGN.md §4 C14"),
  "C20": dict(
-  text="Deductive proof of the client-protection clauses of the recovery mailbox, for every name: it cannot be created (State.Create), deleted (State.Delete), renamed from or onto (State.Rename), appended to (State.AppendOnlyMailbox) or be the destination of COPY / MOVE (Mailbox.Copy / Mailbox.Move): each returns an error (ErrOperationNotAllowed) before any write transaction is started.",
+  text="Deductive proof of the client-protection clauses of the recovery mailbox, for every name: it cannot be created (State.Create), deleted (State.Delete), renamed from or onto (State.Rename), appended to (State.AppendOnlyMailbox) or be the destination of COPY / MOVE (Mailbox.Copy / Mailbox.Move): each returns an error (ErrOperationNotAllowed) before any write transaction is started. The hash set that makes recovery 'once per distinct message' is proved consistent: Insert remembers id and hash together or changes nothing; Erase forgets the ids and, for every id it forgets, its hash (so the same bytes can be recovered again once the earlier copy has left).",
   note="Same assumptions as C14. NOT decided: 'answered OK implies stored under the announced UID', the fall-back insertion into the recovery mailbox for every remote failure pattern, once-per-distinct-message (hash set), listing exactly while non-empty, copy/move out of the recovery mailbox.",
   ref="DESIGN.md §4 C20"),
 }
